@@ -11,8 +11,8 @@ sys.path.insert(0, os.path.dirname(os.path.dirname(os.path.abspath(__file__))))
 
 # scenarios shared by several properties (native/<name>.py with run_extra(add) and replay(case)); a replay case of one of
 # them carries {'extra': <name>}
-EXTRA = {'C01': ['childsel'], 'C02': ['childlost'], 'C03': ['childsel', 'childonce'], 'C06': ['childsel'], 'C07': ['childlost'],
-         'C08': ['childsel'], 'C10': ['childsel']}
+EXTRA = {'C01': ['childsel'], 'C02': ['childlost', 'teardownlost'], 'C03': ['childsel', 'childonce'], 'C06': ['childsel', 'childtransfer'], 'C07': ['childlost'],
+         'C08': ['childsel'], 'C10': ['childsel', 'startorder'], 'C12': ['teardownlost']}
 
 
 def main():
